@@ -123,6 +123,12 @@ def configs(tier, seed):
         # ... and from a non-initial state: a position is open while the price sits at zero twice
         spec = dict(v, shape="T1", alpha="exact", capital=64.0, ndates=4, prices={"a": [4.0, 0.0, 0.0, 2.0], "b": [1.0, 2.0, 0.0, 1.0]}, preops=[["transact", [], "a", 3.0], ["next"]])
         out.append(("T1/zero2/%s" % _vname(v), spec, alpha.base_ops("T1") + [["next_raw"]], 2 if quick else 3))
+    # a coupon-paying security marked to market (fixed_income=False) with a contract multiplier
+    from . import _ledger_run
+
+    for vi, v in enumerate(vs[:1] if quick else variants[:2]):
+        spec = dict(v, shape="MC", alpha="exact", capital=64.0, ndates=4, mult={"c": 4, "e": 2})
+        out.append(("MC/%s" % _vname(v), spec, _ledger_run.ops_for("C01", "MC", spec), 3))
     return out
 
 
